@@ -281,7 +281,7 @@ func cmdDrive(args []string) {
 	var must []string
 	switch *prop {
 	case "C14":
-		must = []string{"fired.short+err", "fired.zero+err", "fired.full+err", "fired.always", "fired.transient", "fired.short+nil", "probe.fault_beyond_4096", "probe.fault_at_offset_0", "probe.fault_on_last_sink_call", "control_runs",
+		must = []string{"fired.short+err", "fired.zero+err", "fired.full+err", "fired.always", "fired.transient", "fired.flaky", "fired.short+nil", "probe.fault_beyond_4096", "probe.fault_at_offset_0", "probe.fault_on_last_sink_call", "control_runs",
 			"errkind.temporary", "errkind.timeout", "errkind.shortwrite", "errkind.eof", "errkind.closedpipe", "errkind.epipe", "errkind.deadline"}
 	case "C06":
 		must = []string{"probe.rerenders", "probe.stale_tree_renders", "probe.ops_after_failed_op", "probe.same_doc_back_to_back", "probe.renders_by_other_renderer", "probe.renders_after_other_renderer", "op.Convert", "op.PkgConvert", "op.Parse", "op.Render", "op.ParseRender"}
@@ -407,7 +407,7 @@ func writeEvidence(verifDir, prop, tier string, seed uint64, plan tierPlan, st *
 	cov["stub_components"] = []string{"destination writer (fault-injecting sink; writer stacks W1/W2/W3)", "delegating parser.Context / parser.IDs / text.Reader wrappers (yield points, transparent)", "scheduler (seeded policies or explicit decision list) releasing real goroutines one at a time"}
 	switch prop {
 	case "C14":
-		cov["rule"] = "fault_enumeration: for every (configuration, document, API path, writer stack) group the fault-free output R is obtained, then every byte offset k in [0,len(R)] is used as the point where the writer starts to fail (short write + error; strided with all buffer boundaries kept when the group is not marked exhaustive), every sink call index j for zero+err and full+err, 'always', and seeded transient and short-write-without-error plans. A case is non-trivial when the fault actually fired (the sink returned its error or wrote short); distinct = distinct (group, plan) tuples by hash."
+		cov["rule"] = "fault_enumeration: for every (configuration, document, API path, writer stack) group the fault-free output R is obtained, then every byte offset k in [0,len(R)] is used as the point where the writer starts to fail (short write + error; strided with all buffer boundaries kept when the group is not marked exhaustive), every sink call index j for zero+err and full+err, 'always', seeded transient plans, seeded flaky plans (a sequence of failing and succeeding calls) and short-write-without-error plans. A case is non-trivial when the fault actually fired (the sink returned its error or wrote short); distinct = distinct (group, plan) tuples by hash."
 		cov["exhaustive"] = false
 		cov["groups"] = st.Counters["groups"]
 		cov["groups_with_every_offset_enumerated"] = st.Counters["groups_exhaustive"]
